@@ -42,6 +42,14 @@ def answer (fields : List String) : String :=
     match tyOfString ty, valOfString val with
     | some t, some v => if hasType t v then toHex (Spec.ser t v) else "ill-typed"
     | _, _ => "bad-request"
+  | ["collect_coarse", kind, val] =>
+    -- entries ordered by the leading integer of their key only (a key type with a coarse `Ord`)
+    match valOfString val with
+    | some (.list vs) =>
+      let idOf : Val → Nat := fun v => match v with | .tuple (.uint i :: _) => i | _ => 0
+      let key : Val → Val := fun v => if kind == "map" then (match v with | .tuple (k :: _) => k | w => w) else v
+      valStr (.list (collectCmp (fun a b => compare (idOf (key a)) (idOf (key b))) vs))
+    | _ => "bad-request"
   | ["len", ty, val] =>
     match tyOfString ty, valOfString val with
     | some t, some v => if hasType t v then toString (bytesLen t v) else "ill-typed"
